@@ -139,6 +139,17 @@ def run(ctx):
             ctx.instance(1)
             # the assembling callee may itself reset on every path
             ok = callee_of(f.term(ab)) in always_resets or (bool(rst) and f.must_pass(ab, f.exits(), rst))
+            if not ok and rst:
+                # the other discipline: the state is cleaned right before every assembly of the handler (the first assembly of the process starts
+                # from fresh thread-locals anyway) - every path from the handler's entry to the assembling call passes reset_state, and nothing
+                # that touches the assembler runs between the reset and that call
+                before = not (ab in f.reachable(0, avoid=set(rst))) and ab not in rst
+                between_clean = True
+                for rb in rst:
+                    mid = (f.reachable(rb, avoid={ab}) - {rb}) & {x for x in f.live_blocks() if ab in f.reachable(x)}
+                    if any(is_asm_call(c2) for b2, t2, c2 in f.calls() if b2 in mid):
+                        between_clean = False
+                ok = before and between_clean
             ctx.oblig(ok, {"handler": short(f.name), "reset on every path after assemble": ok}, "must-pass")
             if not ok:
                 p = f.path(ab, set(f.exits()), avoid=set(rst))
